@@ -17,6 +17,8 @@ pub struct Case {
     pub allow_self: bool,
     pub forward: bool,
     pub pay_fails: bool,
+    /// the amount record precedes the invoice record in the metadata stream
+    pub amt_first: bool,
 }
 
 pub fn cases() -> Vec<Case> {
@@ -28,7 +30,12 @@ pub fn cases() -> Vec<Case> {
                     for amt in 0..8u8 {
                         for allow_self in [true, false] {
                             for forward in [true, false] {
-                                v.push(Case { amountless, signer: signer.clone(), hints: hints.clone(), hash_equal, amt, allow_self, forward, pay_fails: (amt + allow_self as u8) % 2 == 0 });
+                                for amt_first in [false, true] {
+                                    if amt_first && amt == 0 {
+                                        continue;
+                                    }
+                                    v.push(Case { amountless, signer: signer.clone(), hints: hints.clone(), hash_equal, amt, allow_self, forward, pay_fails: (amt + allow_self as u8) % 2 == 0, amt_first });
+                                }
                             }
                         }
                     }
@@ -80,7 +87,10 @@ fn plan_for(c: Case) -> impl FnOnce(&mut Rng) -> Plan {
         let a = ref_amount(inv.amount_msat, &amt).unwrap_or(amount);
         let need = (a as u128 + fee_of(&cfg, a)).max(amount as u128 + fee_of(&cfg, amount)) as u64 + 10;
         let expiry = cfg.start_height + 1100;
-        let metadata = Metadata::Tramp { invoice: inv, amt, extra_before: vec![], extra_after: vec![] };
+        let metadata = match (&amt, c.amt_first) {
+            (AmtField::Bytes(b), true) => Metadata::Tramp { invoice: inv, amt: AmtField::Absent, extra_before: vec![(33003, b.clone())], extra_after: vec![] },
+            _ => Metadata::Tramp { invoice: inv, amt, extra_before: vec![], extra_after: vec![] },
+        };
         let forward = if c.forward { Some(need) } else { None };
         let label = ref_label(&hash, &None, &forward, &metadata, c.allow_self);
         let htlcs = vec![HtlcSpec {
